@@ -495,4 +495,49 @@ theorem gridLocate_mem (g : Grid) (hx : 0 < g.nx) (hy : 0 < g.ny) (hz : 0 < g.nz
   simpa using this
 end total
 
+/-- descent by position in exact arithmetic (restated as `amr_contains` in `Props/C16.lean`) -/
+theorem amr_contains_aux (g : Grid) (b : Box3 ℝ) (p : V3 ℝ) (hx : 0 < g.nx) (hy : 0 < g.ny) (hz : 0 < g.nz)
+    (hb : PosBox b) (hp : InBox b p) :
+    let ix := blockIndex g.nx p.x b.ax b.sx
+    let iy := blockIndex g.ny p.y b.ay b.sy
+    let iz := blockIndex g.nz p.z b.az b.sz
+    ix < g.nx ∧ iy < g.ny ∧ iz < g.nz ∧
+    InBox (gridLocate g b p).2 p ∧
+    (∃ π ∈ leafPaths (g.block ix iy iz), (gridLocate g b p).1 = gridKey ix iy iz (encodeKey π) ∧
+      (gridLocate g b p).2 = boxOfPath (blockBox g b ix iy iz) π) ∧
+    (∀ jx jy jz : Nat, ∀ π ∈ leafPaths (g.block jx jy jz), InBox (boxOfPath (blockBox g b jx jy jz) π) p →
+      (gridLocate g b p).1 = gridKey jx jy jz (encodeKey π)) := by
+  intro ix iy iz
+  obtain ⟨hx1, hx2, hy1, hy2, hz1, hz2⟩ := hp
+  obtain ⟨sx, sy, sz⟩ := hb
+  obtain ⟨bx, bx1, bx2⟩ := blockIndex_real g.nx hx p.x b.ax b.sx sx hx1 hx2
+  obtain ⟨by', by1, by2⟩ := blockIndex_real g.ny hy p.y b.ay b.sy sy hy1 hy2
+  obtain ⟨bz, bz1, bz2⟩ := blockIndex_real g.nz hz p.z b.az b.sz sz hz1 hz2
+  have hnx : (0 : ℝ) < g.nx := by exact_mod_cast hx
+  have hny : (0 : ℝ) < g.ny := by exact_mod_cast hy
+  have hnz : (0 : ℝ) < g.nz := by exact_mod_cast hz
+  have hpos : ∀ jx jy jz, PosBox (blockBox g b jx jy jz) := by
+    intro jx jy jz; unfold PosBox blockBox; simp only [ofNat_real]
+    exact ⟨div_pos sx hnx, div_pos sy hny, div_pos sz hnz⟩
+  have hin : InBox (blockBox g b ix iy iz) p := by
+    unfold InBox blockBox; simp only
+    exact ⟨bx1, bx2, by1, by2, bz1, bz2⟩
+  obtain ⟨h1, π, hπ, h3, h4⟩ := descend_spec (g.block ix iy iz) 0 _ p (hpos ix iy iz) hin
+  refine ⟨bx, by', bz, h1, ⟨π, hπ, ?_, h4⟩, ?_⟩
+  · show gridKey ix iy iz (descend (g.block ix iy iz) 0 p (blockBox g b ix iy iz)).1 = _
+    rw [h3]; simp
+  · intro jx jy jz π' hπ' hin'
+    have hb' := boxOfPath_sub π' _ p (hpos jx jy jz) hin'
+    unfold InBox blockBox at hb'
+    simp only [ofNat_real] at hb'
+    obtain ⟨c1, c2, c3, c4, c5, c6⟩ := hb'
+    have ex : ix = jx := blockIndex_unique g.nx hx p.x b.ax b.sx sx jx hx1 hx2 c1 c2
+    have ey : iy = jy := blockIndex_unique g.ny hy p.y b.ay b.sy sy jy hy1 hy2 c3 c4
+    have ez : iz = jz := blockIndex_unique g.nz hz p.z b.az b.sz sz jz hz1 hz2 c5 c6
+    subst ex ey ez
+    have := descend_unique (g.block ix iy iz) 0 _ p (hpos ix iy iz) hin π' hπ' hin'
+    show gridKey ix iy iz (descend (g.block ix iy iz) 0 p (blockBox g b ix iy iz)).1 = _
+    rw [this]; simp
+
+
 end CMacVerif.AMR
